@@ -569,7 +569,9 @@ class Block:
         """Given a dictionary for an experiment that maps all non-implied factors to their levels,
         adds level values for implied factors"""
         n = len(list(results.values())[0])
-        for f in self.design:
+        # An implied factor can depend on another implied factor that is listed
+        # later in the design, so fill them in by derivation depth.
+        for f in sorted(self.design, key=lambda f: f._get_depth()):
             if f not in self.act_design:
                 sustain_count = self.sustain_count(f)
                 vals = []
